@@ -253,10 +253,13 @@ fn expand(
             match expr {
                 SExpr::Atom(_) => continue,
                 SExpr::List(l) => {
-                    if !matches!(
-                        l.t.first().and_then(|expr| expr.atom(None)),
-                        Some("template-expand") | Some("t!")
-                    ) {
+                    let first_atom = l.t.first().and_then(|expr| expr.atom(None));
+                    if nesting == 0 && first_atom == Some("deftemplate") {
+                        // A template definition is not configuration. Expanding inside it would
+                        // evaluate the templates it uses with its parameters still unsubstituted.
+                        continue;
+                    }
+                    if !matches!(first_atom, Some("template-expand") | Some("t!")) {
                         expand(
                             &mut l.t,
                             templates,
